@@ -5,8 +5,10 @@ package sched
 
 import (
 	"fmt"
+	"time"
 
 	"github.com/bytemare/secp256k1/internal/verif/verifrt"
+	"github.com/bytemare/secp256k1/internal/verif/vsync"
 )
 
 // Decision: at scheduling point Point run thread To (instead of the default).
@@ -17,9 +19,19 @@ type Decision struct {
 
 const (
 	kindInitial = iota
-	kindHook
-	kindFinish
+	kindHook    // function entry or synchronisation operation: the running thread could continue (switching away is a preemption)
+	kindFinish  // the running thread ended
+	kindBlock   // the running thread waits (lock held by another thread, WaitGroup, condition): it cannot continue
 )
+
+// maxThreads bounds harness threads plus goroutines started by the library in one execution.
+const maxThreads = 30
+
+// StuckAfter is the watchdog of one execution: a tree that blocks in a way the scheduler does not own (channel
+// operations, spin loops on plain memory) makes no progress; the exploration is then abandoned as incomplete.
+var StuckAfter = 60 * time.Second
+
+type deadlockSentinel struct{}
 
 type thread struct {
 	body   func()
@@ -39,19 +51,30 @@ type Exec struct {
 	// recording (one entry per scheduling point)
 	Kind    []uint8
 	Cur     []int8
-	Alive   []uint8
+	Alive   []uint32 // threads that may be chosen at the point (alive and not waiting)
+	Def     []int8   // the default choice at the point
 	Hash    []uint64
 	h       uint64
 	Diverge string
 	maxPts  int
 	panicV  any
 
+	// synchronisation (library-side sync / atomic / go statements, redirected by the instrumentation)
+	waiting     uint32 // threads that polled and cannot proceed until some thread changes synchronisation state
+	nHarness    int
+	deadlock    bool // teardown in progress
+	Deadlock    bool // every live thread waits and a harness thread is among them
+	DaemonsOnly bool // only goroutines started by the library were left waiting when the harness threads had ended
+	Stuck       bool // watchdog fired
+	Spawned     int
+	SyncPoints  int
+
 	collapse     bool // collapse chains of consecutive scheduling-point entries into one point
 	lastWasPoint bool
 }
 
-func (e *Exec) aliveMask() uint8 {
-	var m uint8
+func (e *Exec) aliveMask() uint32 {
+	var m uint32
 
 	for i, t := range e.threads {
 		if !t.done {
@@ -62,8 +85,8 @@ func (e *Exec) aliveMask() uint8 {
 	return m
 }
 
-func lowest(mask uint8) int {
-	for i := 0; i < 8; i++ {
+func lowest(mask uint32) int {
+	for i := 0; i < 32; i++ {
 		if mask&(1<<i) != 0 {
 			return i
 		}
@@ -75,32 +98,51 @@ func lowest(mask uint8) int {
 // point records a scheduling point and returns the thread that must run next.
 func (e *Exec) point(kind uint8, id int) int {
 	p := len(e.Kind)
-	alive := e.aliveMask()
+	enabled := e.aliveMask() &^ e.waiting
 	e.h = (e.h ^ uint64(uint32(id)+1)<<8 ^ uint64(e.cur+1)) * 1099511628211
+
+	def := e.cur
+	if kind != kindHook || def < 0 || enabled&(1<<def) == 0 {
+		def = lowest(enabled)
+	}
+
 	e.Kind = append(e.Kind, kind)
 	e.Cur = append(e.Cur, int8(e.cur))
-	e.Alive = append(e.Alive, alive)
+	e.Alive = append(e.Alive, enabled)
+	e.Def = append(e.Def, int8(def))
 	e.Hash = append(e.Hash, e.h)
 
-	next := e.cur
-	if kind != kindHook {
-		next = lowest(alive)
-	}
+	next := def
 
 	if e.planPos < len(e.plan) && e.plan[e.planPos].Point == p {
 		next = e.plan[e.planPos].To
 		e.planPos++
 
-		if next < 0 || next >= len(e.threads) || alive&(1<<next) == 0 {
+		if next < 0 || next >= len(e.threads) || enabled&(1<<next) == 0 {
 			e.Diverge = fmt.Sprintf("planned thread %d is not runnable at point %d", next, p)
-			next = lowest(alive)
+			next = def
 		}
 	}
 
 	return next
 }
 
+// switchTo hands the processor to thread next and suspends the calling thread me until it is chosen again.
+func (e *Exec) switchTo(me, next int) {
+	e.cur = next
+	e.threads[next].resume <- struct{}{}
+	<-e.threads[me].resume
+
+	if e.deadlock {
+		panic(deadlockSentinel{})
+	}
+}
+
 func (e *Exec) hook(id int) {
+	if e.deadlock {
+		return
+	}
+
 	if !e.isPoint[id] {
 		e.lastWasPoint = false
 		return
@@ -120,24 +162,122 @@ func (e *Exec) hook(id int) {
 	}
 
 	me := e.cur
-	next := e.point(kindHook, id)
-
-	if next != me {
-		e.cur = next
-		e.threads[next].resume <- struct{}{}
-		<-e.threads[me].resume
+	if next := e.point(kindHook, id); next != me {
+		e.switchTo(me, next)
 	}
+}
+
+// syncPre: a synchronisation operation of the library is about to happen - always a scheduling point.
+func (e *Exec) syncPre(kind int) {
+	if e.deadlock {
+		return
+	}
+
+	e.lastWasPoint = false
+	e.SyncPoints++
+
+	if len(e.Kind) > e.maxPts {
+		return
+	}
+
+	me := e.cur
+	if next := e.point(kindHook, -10-kind); next != me {
+		e.switchTo(me, next)
+	}
+}
+
+// syncPost: synchronisation state changed - every waiting thread polls again when it is next chosen.
+func (e *Exec) syncPost() { e.waiting = 0 }
+
+// block: the running thread polled and cannot proceed.
+func (e *Exec) block() {
+	if e.deadlock {
+		panic(deadlockSentinel{})
+	}
+
+	me := e.cur
+	e.waiting |= 1 << me
+
+	if e.aliveMask()&^e.waiting == 0 {
+		e.declareDeadlock()
+		panic(deadlockSentinel{})
+	}
+
+	e.switchTo(me, e.point(kindBlock, -3))
+}
+
+func (e *Exec) declareDeadlock() {
+	e.deadlock = true
+
+	for i := 0; i < e.nHarness; i++ {
+		if !e.threads[i].done {
+			e.Deadlock = true
+			return
+		}
+	}
+
+	e.DaemonsOnly = true
+}
+
+// spawn: the library starts a goroutine; it becomes a thread of this execution.
+func (e *Exec) spawn(f func()) {
+	if e.deadlock {
+		return
+	}
+
+	if len(e.threads) >= maxThreads {
+		e.Diverge = "the library started more goroutines than the scheduler models"
+		return
+	}
+
+	t := &thread{body: f, resume: make(chan struct{})}
+	e.threads = append(e.threads, t)
+	e.Spawned++
+	e.start(len(e.threads)-1, t)
+	e.syncPre(vsync.KSpawn)
+}
+
+func (e *Exec) start(i int, t *thread) {
+	go func() {
+		<-t.resume
+
+		defer func() {
+			if p := recover(); p != nil {
+				if _, tear := p.(deadlockSentinel); !tear && e.panicV == nil {
+					e.panicV = p
+				}
+			}
+
+			e.finish(i)
+		}()
+
+		if e.deadlock {
+			return
+		}
+
+		t.body()
+	}()
 }
 
 func (e *Exec) finish(me int) {
 	e.threads[me].done = true
+	e.waiting &^= 1 << me
+	alive := e.aliveMask()
 
-	if e.aliveMask() == 0 {
+	if alive == 0 {
 		e.mainCh <- struct{}{}
 		return
 	}
 
-	next := e.point(kindFinish, -1)
+	if !e.deadlock && alive&^e.waiting == 0 {
+		e.declareDeadlock() // everything that is left waits for something that cannot happen any more
+	}
+
+	next := lowest(alive)
+	if !e.deadlock {
+		next = e.point(kindFinish, -1)
+	}
+
 	e.cur = next
 	e.threads[next].resume <- struct{}{}
 }
@@ -157,31 +297,35 @@ func Run(bodies []func(), plan []Decision, isPoint []bool) *Exec {
 		e.threads = append(e.threads, &thread{body: b, resume: make(chan struct{})})
 	}
 
+	e.nHarness = len(e.threads)
+
 	for i, t := range e.threads {
-		go func(i int, t *thread) {
-			<-t.resume
-
-			defer func() {
-				if p := recover(); p != nil {
-					if e.panicV == nil {
-						e.panicV = p
-					}
-				}
-
-				e.finish(i)
-			}()
-
-			t.body()
-		}(i, t)
+		e.start(i, t)
 	}
 
 	e.cur = -1
 	first := e.point(kindInitial, -2)
 	e.cur = first
 	verifrt.Hook = e.hook
+	verifrt.SyncPre, verifrt.SyncPost, verifrt.BlockHook, verifrt.GoHook = e.syncPre, e.syncPost, e.block, e.spawn
 	e.threads[first].resume <- struct{}{}
-	<-e.mainCh
+
+	watchdog := time.NewTimer(StuckAfter)
+
+	select {
+	case <-e.mainCh:
+	case <-watchdog.C:
+		e.Stuck = true
+	}
+
+	watchdog.Stop()
+
 	verifrt.Hook = nil
+	verifrt.SyncPre, verifrt.SyncPost, verifrt.BlockHook, verifrt.GoHook = nil, nil, nil, nil
+
+	if e.Stuck {
+		return e
+	}
 
 	if e.planPos < len(e.plan) && e.Diverge == "" {
 		e.Diverge = fmt.Sprintf("execution ended after %d points before planned decision %d (at point %d) was reached", len(e.Kind), e.planPos, e.plan[e.planPos].Point)
@@ -218,6 +362,9 @@ type Explorer struct {
 	ToolErr   string
 	Budget    func() bool // returns true when exploration must stop (wall-clock guard)
 	Stopped   bool
+	Stuck     bool  // an execution made no progress (blocking the scheduler does not own): exploration abandoned
+	Spawned   int64 // goroutines started by the library, over all executions
+	SyncOps   int64 // synchronisation operations of the library, over all executions
 }
 
 // Explore runs the depth-first search from the empty plan.
@@ -236,6 +383,13 @@ func (x *Explorer) explore(plan []Decision, preempt int, parentHash []uint64) {
 	e := Run(x.NewBodies(), plan, x.IsPoint)
 	x.Schedules++
 	x.Points += int64(len(e.Kind))
+	x.Spawned += int64(e.Spawned)
+	x.SyncOps += int64(e.SyncPoints)
+
+	if e.Stuck {
+		x.Stuck, x.Stopped = true, true
+		return
+	}
 
 	if len(e.Kind) > x.MaxPoints {
 		x.MaxPoints = len(e.Kind)
@@ -267,19 +421,17 @@ func (x *Explorer) explore(plan []Decision, preempt int, parentHash []uint64) {
 
 	for p := start; p < len(e.Kind); p++ {
 		cost := preempt
-		def := int(e.Cur[p])
+		def := int(e.Def[p])
 
 		if e.Kind[p] == kindHook {
 			cost++
-		} else {
-			def = lowest(e.Alive[p])
 		}
 
 		if cost > x.Bound {
 			continue
 		}
 
-		for t := 0; t < 8; t++ {
+		for t := 0; t < 32; t++ {
 			if e.Alive[p]&(1<<t) == 0 || t == def {
 				continue
 			}
